@@ -552,11 +552,13 @@ def run(ctx):
         st.count_dist(ctx, c)
         ctx.count('mode:' + st.mode_of(c))
         ctx.record_case({k: c[k] for k in ('spec', 'nx', 'nu', 'ep', 'rows')}, st.nontrivial(c))
-        why = st.compare_values(Xr, replies[2 * i], c, cells, reg)
+        why = st.compare_values_guarded(Xr, replies[2 * i], c, cells, reg,
+                                        lambda Z, est=est: est.inverse_transform(est.transform(Z)), count=ctx.count)
         if why:
             ctx.mismatch('inverse_transform(transform(X)): ' + why, c, None, None)
             bad.append(c)
-        why = st.compare_values(Xt, replies[2 * i + 1], c, cells, reg, cols=slice(0, c['nx']))
+        why = st.compare_values_guarded(Xt, replies[2 * i + 1], c, cells, reg, lambda Z, est=est: est.transform(Z),
+                                        count=ctx.count, cols=slice(0, c['nx']))
         if why:
             ctx.mismatch('leading state columns of transform(X): ' + why, c, None, None)
             bad.append(c)
